@@ -87,6 +87,8 @@ def r07_1(ctx: Ctx) -> None:
         "bool(page.table_attrs)": [True], "bool(document.rtf_body)": [True],
         "bool(copy(page.table_attrs).border_first)": [True], "bool(copy(page.table_attrs).border_last)": [True],
         "bool(copy(page.table_attrs).border_top)": [True], "bool(copy(page.table_attrs).border_bottom)": [True],
+        "bool(page.table_attrs.border_first)": [True], "bool(page.table_attrs.border_last)": [True],          # the same when the attributes are not copied (R07.4's finding)
+        "bool(page.table_attrs.border_top)": [True], "bool(page.table_attrs.border_bottom)": [True],
         # no user border_top wider than border_first (that override is the documented per-cell behaviour)
         "bool(document.rtf_body.border_top)": [False],
         "∀col_idx∈range(page.data.width) < len(document.rtf_body.border_first[0])": [True],
@@ -102,7 +104,8 @@ def r07_1(ctx: Ctx) -> None:
     try:
         rows = dt.table(fi, args, limit=60000)
     except Unsupported as e:
-        raise AnalysisError(f"border decision logic uses a construct outside the decision-table subset: {e}")
+        ctx.gap("R07.1", f"border decision logic uses a construct outside the decision-table subset (or its table was cut off): {e}")      # a cut-off is a gap, the other rules still run
+        return
     ctx.extra["table_rows"] = len(rows)
     ctx.extra["atoms"] = sorted(dt.discovered)
     ctx.extra["exhaustive"] = True
@@ -178,7 +181,7 @@ def r07_1(ctx: Ctx) -> None:
                       f"{edge} edge: on {len(cfgs)} configuration(s) the hierarchy requires {list(exp)} but the code applies {list(got) or 'nothing'}; "
                       f"e.g. {exdesc}", configurations=len(cfgs), example=exdesc)
     if n_cfg < 300:
-        raise AnalysisError(f"only {n_cfg} configurations enumerated (>= 300 expected): atoms were not recognised")
+        ctx.gap("R07.1", f"only {n_cfg} configurations enumerated (>= 300 expected): atoms were not recognised")
 
 
 
